@@ -78,7 +78,7 @@ Inductive query :=
 | QLength | QIndex0 | QIndex | QRevindex | QRevindex0 | QFirst | QLast
 | QPrevitem | QNextitem
 | QCycle (args : list N)
-| QChanged (v : option N)          (* changed(c) for Some c, changed(<current item>) for None *)
+| QChanged (v : option (list N))   (* Some c: changed called with the values c, any number, also none; None: changed(<current item>) *)
 | QDepth | QDepth0.
 
 Inductive answer :=
@@ -114,7 +114,7 @@ Definition m_query (k : kind) (s : st) (q : query) : st * answer :=
                  | Some a => AItem a | None => ATypeError end)
       end
   | QChanged v =>
-      let value := match v with Some c => [c] | None => match current s with Some x => [x] | None => [] end end in
+      let value := match v with Some c => c | None => match current s with Some x => [x] | None => [] end end in
       let same := match last_changed s with Some l => list_eqb l value | None => false end in
       if same then (s, ABool false)
       else ({| iterable := iterable s; rem := rem s; after := after s; lenc := lenc s; before := before s;
